@@ -86,9 +86,21 @@ fn gen_plan(seed: u64, id: u64) -> Plan {
     Plan { prefix, body, end, epilogue }
 }
 
+/// tables whose row count changed under a statement that failed or panicked (a multi-row INSERT or
+/// insert_rows_batch that got some rows in before a later row was rejected)
+static PARTIAL: std::sync::Mutex<Vec<i64>> = std::sync::Mutex::new(Vec::new());
+
 fn run_ops(db: &mut vibesql_storage::Database, ops: &[Op], items: &mut Vec<Item>) {
     for op in ops {
+        let before: Vec<usize> = (0..2).map(|t| table_rows(db, t).len()).collect();
         let code = op.exec(db);
+        if code < 0 {
+            for t in 0..2 {
+                if table_rows(db, t).len() != before[t as usize] {
+                    PARTIAL.lock().unwrap().push(t);
+                }
+            }
+        }
         items.push(Item { op: op.clone(), code, snap: None });
     }
 }
@@ -127,8 +139,10 @@ fn main() {
         let clone_a = db.clone();
         run_ops(&mut db, &[Op::Begin], &mut items);
         let body_start = items.len();
+        PARTIAL.lock().unwrap().clear();
         run_ops(&mut db, &plan.body, &mut items);
         let body_end = items.len();
+        let partial_tables: Vec<i64> = PARTIAL.lock().unwrap().clone();
         let snap_b = observe(&mut db);
         items.last_mut().unwrap().snap = Some(snap_b.clone());
         let clone_b = db.clone();
@@ -153,7 +167,8 @@ fn main() {
         let ref_d = observe(&mut ref_db);
         let body_items = &items[body_start..body_end];
         let ddl_in_body = body_items.iter().any(|it| matches!(it.op, Op::CreateIndex(..) | Op::DropIndex(_)) && it.code >= 0);
-        let dml_tables: Vec<i64> = body_items.iter().filter_map(|it| data_op_table(&it.op, it.code)).collect();
+        let mut dml_tables: Vec<i64> = body_items.iter().filter_map(|it| data_op_table(&it.op, it.code)).collect();
+        dml_tables.extend(partial_tables.iter().copied());
         let indexed_during = |t: i64| snap_a.uix.iter().chain(snap_b.uix.iter()).any(|(_, tt, _, _)| *tt == t);
         let case = || {
             json!({"history": items.iter().map(|it| json!([it.op.text(), it.code])).collect::<Vec<_>>(),
